@@ -52,6 +52,12 @@ such case is a unit, an obligation or a scenario that now exists:
   guard-only state-local row, `block` the scenario "flag of a substate while its submachine is being left"; `on_exit` runs under C03/C17.
   C18e (type-level reordering of Kleene rows) -> `kleene` scenario "Kleene row declared last wins".  C15e C16e C19e C20e caught at once (C16e by
   the `ser` continuation scenarios); witnesses added for C15e (`copy`: front-end data) and C20e (`queue`: bounded drain with a burst).
+* f-wave (8 properties; authors pointed at back11, favor_compile_time, non-default queue / history / switch policies): C04f missed at first
+  (the `do_entry` post-condition "entry, then deferred, then queued events" was not labelled C04) -> label + `queue` scenario "events sent to the
+  submachine by its initial entry".  C15f: drift (a member the model did not know) -> `m_upper_fsm` modelled, obligation "the copy keeps its
+  own wiring".  C20f: drift and no scenario -> bounded deferred unit also under C20 + `queue` scenario "circular deferred queue, occurrence
+  re-deferred while dispatched".  C09f: drift -> a continuation through `enqueue_event` is an obligation failure.  C12f caught by the row
+  contract; the `exc` family now runs all four switch policies and guard-less rows (544 scenarios) and gives the witness.  C02f C07f caught at once.
 * type-level changes (no contract reaches them; the native families decide - since the uncovered-code trigger of 10.3(c) also in the quick tier): C17b, C17c, C13b, C07c, C18c, C06d.
 
 ''' % n
